@@ -128,7 +128,7 @@ pub fn stream_bytes(sc: &C01, tail: &[u8]) -> Vec<u8> {
 /// judge one handle() run against the expectation; returns (violated, role, detail).
 /// `rest_of_reader` = bytes the caller's reader still holds after the call.
 pub fn judge(sc: &C01, tail: &[u8], input: &[u8], msg_lens: &[usize], rest_of_reader: &[u8], out: &[u8],
-             res: &varlink::Result<(Vec<u8>, Option<String>)>) -> (bool, String, String) {
+             res: &varlink::Result<(Vec<u8>, Option<String>)>, oneway: bool) -> (bool, String, String) {
     let pieces: Vec<&[u8]> = out.split(|b| *b == 0).collect();
     let (replies, trailing) = pieces.split_at(pieces.len() - 1);
     let mut pos = 0usize;
@@ -147,6 +147,12 @@ pub fn judge(sc: &C01, tail: &[u8], input: &[u8], msg_lens: &[usize], rest_of_re
                 closes: false,
                 upgraded: false,
             };
+        }
+        if oneway {
+            // natively the implementation replies through Call::reply_struct, which stays silent for
+            // a oneway request (the harness model writes to the writer directly)
+            e.script_replies = 0;
+            e.iface_not_found = false;
         }
         offset += msg_lens[i] + 1;
         let want: Vec<u8> = std::iter::repeat(E_NONE).take(e.script_replies).chain(if e.iface_not_found { Some(E_IFACE_NOT_FOUND) } else { None }).collect();
@@ -210,7 +216,7 @@ pub fn judge(sc: &C01, tail: &[u8], input: &[u8], msg_lens: &[usize], rest_of_re
     (false, String::new(), String::new())
 }
 
-pub fn run_stream(sc: &C01, tail: &[u8], flags: bool, malformed: &str) -> Outcome {
+pub fn run_stream(sc: &C01, tail: &[u8], flags: u8, malformed: &str) -> Outcome {
     let k = sc.k;
     let (svc, _p) = service(&sc.msgs[..k]);
     let mut input = Vec::new();
@@ -220,9 +226,10 @@ pub fn run_stream(sc: &C01, tail: &[u8], flags: bool, malformed: &str) -> Outcom
         if !sc.msgs[i].parse_ok {
             j = malformed.to_string();
         }
-        if flags && sc.msgs[i].parse_ok {
-            // the _flags instance: every request carries more=true, oneway=false
-            j = j.replace("\"}", "\",\"more\":true,\"oneway\":false}");
+        if flags > 0 && sc.msgs[i].parse_ok {
+            // the _flags instances: every request carries these flags
+            let f = if flags == 1 { "\",\"more\":true,\"oneway\":false}" } else { "\",\"more\":false,\"oneway\":true,\"upgrade\":true}" };
+            j = j.replace("\"}", f);
         }
         msg_lens.push(j.len());
         input.extend_from_slice(j.as_bytes());
@@ -232,7 +239,7 @@ pub fn run_stream(sc: &C01, tail: &[u8], flags: bool, malformed: &str) -> Outcom
     let mut out: Vec<u8> = Vec::new();
     let mut reader = &input[..];
     let res = svc.handle(&mut reader, &mut out, None);
-    let (violated, role, detail) = judge(sc, tail, &input, &msg_lens, reader, &out, &res);
+    let (violated, role, detail) = judge(sc, tail, &input, &msg_lens, reader, &out, &res, flags == 2);
     let scenario = format!(
         "stream {} ; dispatched implementations (replies, outcome 0=Ok 1=Err 2=upgrade): {:?}",
         String::from_utf8_lossy(&input).replace('\0', "\\0"),
@@ -267,7 +274,7 @@ pub fn instance_of(name: &str) -> Option<(usize, &'static [u8], usize, [u8; KMAX
         "c01_k1_n" => (1, b"t", NF, [N, D, D]),
         "c01_k1_e" => (1, b"t", NF, [E, D, D]),
         "c01_k1_d_f0" | "c06_k1_malformed" | "c06_k1_truncated" | "c06_k1_wrong_shape" => (1, b"t", 0, [D, D, D]),
-        "c01_k2_dd" | "c01_k2_err_first" | "c01_k2_upgrade_first" => (2, b"t", NF, [D, D, D]),
+        "c01_k2_dd" | "c01_k2_dd_flags2" | "c01_k2_err_first" | "c01_k2_upgrade_first" => (2, b"t", NF, [D, D, D]),
         "c01_k2_nd" => (2, b"t", NF, [N, D, D]),
         "c01_k2_dn" => (2, b"t", NF, [D, N, D]),
         "c01_k2_ed" => (2, b"t", NF, [E, D, D]),
@@ -317,7 +324,8 @@ pub fn instance<S: Src>(name: &str, s: &mut S) -> Outcome {
     } else {
         "{\"method\":}"
     };
-    run_stream(&sc, tail, name.ends_with("_flags"), malformed)
+    let flags = if name.ends_with("_flags") { 1 } else if name.ends_with("_flags2") { 2 } else { 0 };
+    run_stream(&sc, tail, flags, malformed)
 }
 
 /// C02 native replay: one cut point, real handle, real bytes.
